@@ -2218,6 +2218,16 @@ func freeServiceVirtualIP(
 		return fmt.Errorf("failed service lookup for %q: %s", psn.ServiceName.Name, err)
 	}
 
+	// Don't deregister the virtual IP if a sidecar proxy (or connect-native instance) of this service
+	// is still registered: it advertises the address in its tagged addresses.
+	if psn.Peer == "" {
+		if connectInstance, err := tx.First(tableServices, indexConnect, q); err != nil {
+			return fmt.Errorf("failed connect service lookup for %q: %s", psn.ServiceName.Name, err)
+		} else if connectInstance != nil {
+			return nil
+		}
+	}
+
 	// Don't deregister the virtual IP if at least one resolver/router/splitter config entry still
 	// references this service.
 	configEntryVIPKinds := []string{
